@@ -211,6 +211,78 @@ theorem c20_ownership (z : Zc) (e : LEnd) :
   · intro hi; simp [zStep, zGet, zClose, hi]
   · intro x hi; simp [zStep, zGet, hi]
 
+/-- every instance the manager has ever created (ids from 1000 up to `next`) has been closed again or is the one it holds now -/
+def NoLeak (z : Zc) : Prop :=
+  ∀ i, 1000 ≤ i → i < z.next → (Inst.own i ∈ z.closed ∨ z.inst = some (.own i))
+
+theorem zStep_noleak (z : Zc) (h : ZInv z) (n : NoLeak z) (op : ZOp) : NoLeak (zStep z op) := by
+  obtain ⟨i1, i2, i3⟩ := h
+  intro i hi1 hi2
+  cases op with
+  | setInstance id =>
+    simp only [zStep] at hi2 ⊢
+    cases hz : z.inst with
+    | none => simp only [hz] at hi2 ⊢; have := n i hi1 hi2; simp_all
+    | some x => simp only [hz] at hi2 ⊢; split at hi2 <;> (split <;> (have := n i hi1 hi2; simp_all))
+  | get =>
+    simp only [zStep, zGet] at hi2 ⊢
+    cases hz : z.inst with
+    | none =>
+      simp only [hz] at hi2 ⊢
+      by_cases he : i = z.next
+      · right; simp [he]
+      · have := n i hi1 (by omega); simp_all
+    | some x => simp only [hz] at hi2 ⊢; have := n i hi1 hi2; simp_all
+  | getFail => simp only [zStep] at hi2 ⊢; exact n i hi1 hi2
+  | close =>
+    simp only [zStep, zClose] at hi2 ⊢
+    cases hc : z.created <;> cases hz : z.inst <;> simp only [hc, hz] at hi2 ⊢
+    · have := n i hi1 hi2; simp_all
+    · rename_i x
+      have := n i hi1 hi2
+      rcases this with h | h
+      · exact .inl h
+      · rw [hz] at h; have := i2 i (by rw [hz, Option.some.inj h]); simp_all
+    · have := n i hi1 hi2; simp_all
+    · rename_i x
+      have := n i hi1 hi2
+      rcases this with h | h
+      · left; simp [h]
+      · left; rw [hz] at h; simp [Option.some.inj h]
+  | lookup e =>
+    simp only [zStep, zGet, zClose] at hi2 ⊢
+    cases hz : z.inst with
+    | none =>
+      simp only [hz, Option.isSome_none, Bool.false_eq_true, ↓reduceIte] at hi2 ⊢
+      by_cases he : i = z.next
+      · left; simp [he]
+      · have := n i hi1 (by omega); left; simp_all
+    | some x =>
+      simp only [hz, Option.isSome_some, ↓reduceIte] at hi2 ⊢
+      have := n i hi1 hi2; simp_all
+
+theorem zRun_noleak (z : Zc) (h : ZInv z) (n : NoLeak z) (ops : List ZOp) : NoLeak (zRun z ops) := by
+  induction ops generalizing z with
+  | nil => simpa [zRun]
+  | cons o os ih => exact ih _ (zStep_inv z h o) (zStep_noleak z h n o)
+
+/-- **C20 (nothing the library created stays open behind it).**  After EVERY sequence of manager
+operations — set, get, failing creation, close, lookups that are answered, fail or are abandoned in
+flight — starting with or without a supplied instance, every instance the library has created so
+far has been closed again, except at most the one the manager still holds (and will close on
+`async_close`, `c20_ownership`). -/
+theorem c20_no_leak (supplied : Option Nat) (ops : List ZOp) (i : Nat)
+    (h1 : 1000 ≤ i) (h2 : i < (zRun { inst := supplied.map Inst.supplied } ops).next) :
+    Inst.own i ∈ (zRun { inst := supplied.map Inst.supplied } ops).closed ∨
+    (zRun { inst := supplied.map Inst.supplied } ops).inst = some (.own i) := by
+  refine zRun_noleak _ ?_ ?_ ops i h1 h2
+  · cases supplied <;> exact ⟨by simp, by simp, by simp⟩
+  · intro j hj1 hj2; simp at hj2; omega
+
+/-- three lookups without an instance, one of them abandoned: three instances created, all three closed -/
+example : (zRun {} [.lookup .ok, .lookup .cancelled, .lookup .fail]).closed = [.own 1000, .own 1001, .own 1002] ∧
+    (zRun {} [.lookup .ok, .lookup .cancelled, .lookup .fail]).next = 1003 := by decide +kernel
+
 /-! ## non-vacuity -/
 def demoOracle : Oracle :=
   { isIp := fun h => h == "10.0.0.5".toList || h == "fe80::1%3".toList
